@@ -1,117 +1,134 @@
 (* C14 — Immutable data can never be modified.
    Only statements, [exact]s and [Print Assumptions] live here.
 
-   Model : Model/Mutability.v  [get_mutability fix pk e a d] and its consumers Stmt::Assign / Expr::Ref
-           (fix = false: globals.rs as it is; fix = true: the proposed `through_pointer` repair)
-   Spec  : Spec/MutSpec.v      [place pk e] in {Mut, Immut, Temp}: type-directed place mutability
-   [pk] is the typing oracle (pointer kind of an expression's type). *)
+   Model : Model/Mutability.v  [get_mutability fix fix2 pk deep e a d] and its consumers
+           Stmt::Assign / Expr::Ref.   Variants of the code:
+             fix = false               globals.rs before /repo 1af504c
+             fix = true, fix2 = false  /repo 1af504c: `through_pointer` looks at the outermost pointer level
+             fix = true, fix2 = true   proposed (C14-2-fix.diff): Index / Member look at every
+                                       auto-dereferenced pointer level
+   Spec  : Spec/MutSpec.v      [place pk deep e] in {Mut, Immut, Temp}: type-directed place mutability
+   Typing oracles: [pk e] = pointer kind of the type of e (outermost level), [deep e] = kinds of the
+   further pointer levels that `.f` / `[i]` auto-dereference (`^mut ^[3]i32` -> [false]). *)
 From Capy Require Import Common.Util Model.Mutability Spec.MutSpec Proofs.MutabilityProofs.
 
-(* Full-strength statements: for every consistently typed access path, an accepted
-   assignment never targets immutable data, and a write to mutable data is accepted. *)
-Definition C14_full_sound : Prop := forall pk e,
-  typed pk e = true -> assign_accepted false pk e = true -> place pk e <> Immut.
-Definition C14_full_complete : Prop := forall pk e,
-  typed pk e = true -> place pk e = Mut -> assign_accepted false pk e = true.
+(* ================= the code as it is now (/repo 1af504c): fix = true, fix2 = false ============ *)
 
-(* FALSE of the code as it is: `x :: 5; p := get(^x); p^ = 10` is accepted. *)
+(* Full-strength soundness: an accepted assignment never targets immutable data. *)
+Definition C14_full_sound : Prop := forall pk deep e,
+  typed pk e = true -> assign_accepted true false pk deep e = true -> place pk deep e <> Immut.
+
+(* FALSE: `arr :: i32.[1,2,3]; q := ^arr; ptr := ^mut q; ptr[1] = 50` (ptr : ^mut ^[3]i32) and
+   `pp := ^mut qs; pp.v = 60` (pp : ^mut ^S) are accepted: only the outermost level is checked. *)
 Theorem C14_full_sound_refuted : ~ C14_full_sound.
-Proof. exact full_sound_refuted. Qed.
+Proof. exact fix1_full_sound_refuted. Qed.
 Print Assumptions C14_full_sound_refuted.
 
+Theorem C14_witness_multilevel_auto_deref :
+  typed ml_pk ml_index_path = true
+  /\ assign_accepted true false ml_pk ml_deep ml_index_path = true
+  /\ place ml_pk ml_deep ml_index_path = Immut
+  /\ multilevel ml_pk ml_deep ml_index_path = true
+  /\ assign_accepted true false ml_pk ml_deep ml_field_path = true
+  /\ place ml_pk ml_deep ml_field_path = Immut
+  /\ assign_accepted true true ml_pk ml_deep ml_index_path = false
+  /\ assign_accepted true true ml_pk ml_deep ml_field_path = false.
+Proof. exact multilevel_witness. Qed.
+Print Assumptions C14_witness_multilevel_auto_deref.
+
+(* The strongest true statement about the code as it is: sound for EVERY oracle and every path
+   outside the narrow class [multilevel] (a `.f` / `[i]` on a `^mut` pointer to an immutable pointer). *)
+Theorem C14_assign_sound_except_multilevel : forall pk deep e,
+  multilevel pk deep e = false -> assign_accepted true false pk deep e = true -> place pk deep e <> Immut.
+Proof. exact fix1_assign_sound. Qed.
+Print Assumptions C14_assign_sound_except_multilevel.
+
+Theorem C14_ref_mut_sound_except_multilevel : forall pk deep e,
+  multilevel pk deep e = false -> ref_mut_accepted true false pk deep e = true -> place pk deep e <> Immut.
+Proof. exact fix1_ref_mut_sound. Qed.
+Print Assumptions C14_ref_mut_sound_except_multilevel.
+
+(* Completeness outside [suspect] (unchanged by the repairs; the completeness findings C14-5 remain). *)
+Theorem C14_assign_complete_except_known : forall f2 pk deep e,
+  suspect pk deep e false = false -> place pk deep e = Mut -> assign_accepted true f2 pk deep e = true.
+Proof. exact fixed_assign_complete_all. Qed.
+Print Assumptions C14_assign_complete_except_known.
+
+Theorem C14_ref_mut_complete_except_known : forall f2 pk deep e,
+  suspect pk deep e false = false -> place pk deep e = Mut -> ref_mut_accepted true f2 pk deep e = true.
+Proof. exact fixed_ref_mut_complete_all. Qed.
+Print Assumptions C14_ref_mut_complete_except_known.
+
+(* ================= proposed repair (C14-2-fix.diff): fix = true, fix2 = true =================== *)
+(* FULL soundness, no exclusion, for every pair of typing oracles and every access path. *)
+Theorem C14_fix2_full_sound : forall pk deep e,
+  assign_accepted true true pk deep e = true -> place pk deep e <> Immut.
+Proof. exact fix2_assign_sound. Qed.
+Print Assumptions C14_fix2_full_sound.
+
+Theorem C14_fix2_ref_mut_full_sound : forall pk deep e,
+  ref_mut_accepted true true pk deep e = true -> place pk deep e <> Immut.
+Proof. exact fix2_ref_mut_sound. Qed.
+Print Assumptions C14_fix2_ref_mut_full_sound.
+
+(* ================= the code before /repo 1af504c (fix = false), kept for the record ============ *)
+Definition C14_old_full_sound : Prop := forall pk deep e,
+  typed pk e = true -> assign_accepted false false pk deep e = true -> place pk deep e <> Immut.
+Definition C14_full_complete : Prop := forall pk deep e,
+  typed pk e = true -> place pk deep e = Mut -> assign_accepted false false pk deep e = true.
+
+Theorem C14_old_full_sound_refuted : ~ C14_old_full_sound.
+Proof. exact full_sound_refuted. Qed.
+Print Assumptions C14_old_full_sound_refuted.
+
+(* `x :: 5; p := get(^x); p^ = 10`, `arr := .[^x]; arr[0]^ = 10`, `p := ^mut q; p^^ = 10` were accepted
+   and are rejected by both repaired variants. *)
 Theorem C14_witness_call_result_deref :
-  typed imm_pk call_path = true /\ assign_accepted false imm_pk call_path = true
-  /\ place imm_pk call_path = Immut /\ suspect imm_pk call_path false = true.
+  typed imm_pk call_path = true /\ assign_accepted false false imm_pk no_deep call_path = true
+  /\ place imm_pk no_deep call_path = Immut /\ suspect imm_pk no_deep call_path false = true.
 Proof. exact call_witness. Qed.
 Print Assumptions C14_witness_call_result_deref.
 
-(* `x :: 5; arr := .[^x]; arr[0]^ = 10` is accepted. *)
 Theorem C14_witness_index_then_deref :
-  typed index_pk index_path = true /\ assign_accepted false index_pk index_path = true
-  /\ place index_pk index_path = Immut /\ suspect index_pk index_path false = true.
+  typed index_pk index_path = true /\ assign_accepted false false index_pk no_deep index_path = true
+  /\ place index_pk no_deep index_path = Immut /\ suspect index_pk no_deep index_path false = true.
 Proof. exact index_witness. Qed.
 Print Assumptions C14_witness_index_then_deref.
 
-(* `x :: 5; q := ^x; p := ^mut q; p^^ = 10` is accepted. *)
 Theorem C14_witness_double_deref :
-  typed deref2_pk deref2_path = true /\ assign_accepted false deref2_pk deref2_path = true
-  /\ place deref2_pk deref2_path = Immut /\ suspect deref2_pk deref2_path false = true.
+  typed deref2_pk deref2_path = true /\ assign_accepted false false deref2_pk no_deep deref2_path = true
+  /\ place deref2_pk no_deep deref2_path = Immut /\ suspect deref2_pk no_deep deref2_path false = true.
 Proof. exact deref2_witness. Qed.
 Print Assumptions C14_witness_double_deref.
 
-(* `(arr: [2]^mut i32) { arr[0]^ = 1 }` is rejected although it writes through `^mut`. *)
+Theorem C14_fixed_rejects_witnesses :
+  assign_accepted true false imm_pk no_deep call_path = false
+  /\ assign_accepted true false index_pk no_deep index_path = false
+  /\ assign_accepted true false deref2_pk no_deep deref2_path = false.
+Proof. exact fixed_rejects_witnesses. Qed.
+Print Assumptions C14_fixed_rejects_witnesses.
+
+(* `(arr: [2]^mut i32) { arr[0]^ = 1 }` is rejected although it writes through `^mut` (all variants). *)
 Theorem C14_full_complete_refuted : ~ C14_full_complete.
 Proof. exact full_complete_refuted. Qed.
 Print Assumptions C14_full_complete_refuted.
 
-(* The strongest true statements: outside the class [suspect] (the arms of get_mutability
-   that do not look at the pointer type: second deref / index / #unwrap under deref, call
-   results of type `^T`, locals whose initialiser has another pointer kind than the local,
-   globals and other expressions of type `^mut` under deref) the checks are sound and
-   complete, for EVERY typing oracle. *)
-Theorem C14_assign_sound_except_known : forall pk e,
-  suspect pk e false = false -> assign_accepted false pk e = true -> place pk e <> Immut.
+Theorem C14_old_assign_sound_except_known : forall pk deep e,
+  suspect pk deep e false = false -> assign_accepted false false pk deep e = true -> place pk deep e <> Immut.
 Proof. exact assign_sound. Qed.
-Print Assumptions C14_assign_sound_except_known.
+Print Assumptions C14_old_assign_sound_except_known.
 
-Theorem C14_assign_complete_except_known : forall pk e,
-  suspect pk e false = false -> place pk e = Mut -> assign_accepted false pk e = true.
-Proof. exact assign_complete. Qed.
-Print Assumptions C14_assign_complete_except_known.
-
-Theorem C14_ref_mut_sound_except_known : forall pk e,
-  suspect pk e false = false -> ref_mut_accepted false pk e = true -> place pk e <> Immut.
-Proof. exact ref_mut_sound. Qed.
-Print Assumptions C14_ref_mut_sound_except_known.
-
-Theorem C14_ref_mut_complete_except_known : forall pk e,
-  suspect pk e false = false -> place pk e = Mut -> ref_mut_accepted false pk e = true.
-Proof. exact ref_mut_complete. Qed.
-Print Assumptions C14_ref_mut_complete_except_known.
-
-(* Under the deref flag the code's answer is exactly "the pointer type is ^mut". *)
-Theorem C14_deref_is_type_directed : forall pk e a,
-  suspect pk e true = false ->
-  (is_mutable (get_mutability false pk e a true) = true <-> pk e = Some true).
+(* Under the deref flag the walk's answer is exactly "the pointer type is ^mut" (outside suspect). *)
+Theorem C14_deref_is_type_directed : forall pk deep e a,
+  suspect pk deep e true = false ->
+  (is_mutable (get_mutability false false pk deep e a true) = true <-> pk e = Some true).
 Proof. exact deref_type_directed. Qed.
 Print Assumptions C14_deref_is_type_directed.
 
-(* ---- the repaired variant ([get_mutability true]: `through_pointer`, C14-fix.diff) --------
-   FULL soundness, no exclusion, for every typing oracle and every access path: an accepted
-   assignment / `^mut` never targets immutable data. *)
-Theorem C14_fixed_full_sound : forall pk e,
-  assign_accepted true pk e = true -> place pk e <> Immut.
-Proof. exact fixed_assign_sound. Qed.
-Print Assumptions C14_fixed_full_sound.
-
-Theorem C14_fixed_ref_mut_full_sound : forall pk e,
-  ref_mut_accepted true pk e = true -> place pk e <> Immut.
-Proof. exact fixed_ref_mut_sound. Qed.
-Print Assumptions C14_fixed_ref_mut_full_sound.
-
-(* The repair changes nothing outside the suspect class, so completeness carries over
-   (the completeness findings C14-5 are not addressed by the repair). *)
-Theorem C14_fixed_assign_complete_except_known : forall pk e,
-  suspect pk e false = false -> place pk e = Mut -> assign_accepted true pk e = true.
-Proof. exact fixed_assign_complete. Qed.
-Print Assumptions C14_fixed_assign_complete_except_known.
-
-Theorem C14_fixed_ref_mut_complete_except_known : forall pk e,
-  suspect pk e false = false -> place pk e = Mut -> ref_mut_accepted true pk e = true.
-Proof. exact fixed_ref_mut_complete. Qed.
-Print Assumptions C14_fixed_ref_mut_complete_except_known.
-
-Theorem C14_fixed_rejects_witnesses :
-  assign_accepted true imm_pk call_path = false
-  /\ assign_accepted true index_pk index_path = false
-  /\ assign_accepted true deref2_pk deref2_path = false.
-Proof. exact fixed_rejects_witnesses. Qed.
-Print Assumptions C14_fixed_rejects_witnesses.
-
 (* Non-vacuity: `s.r.v = 1` through r : ^mut T (accepted, Mut) and r : ^T (rejected, Immut). *)
 Example C14_example :
-  suspect (field_pk true) field_path false = false
-  /\ assign_accepted false (field_pk true) field_path = true /\ place (field_pk true) field_path = Mut
-  /\ suspect (field_pk false) field_path false = false
-  /\ assign_accepted false (field_pk false) field_path = false /\ place (field_pk false) field_path = Immut.
+  suspect (field_pk true) no_deep field_path false = false
+  /\ assign_accepted false false (field_pk true) no_deep field_path = true /\ place (field_pk true) no_deep field_path = Mut
+  /\ suspect (field_pk false) no_deep field_path false = false
+  /\ assign_accepted false false (field_pk false) no_deep field_path = false /\ place (field_pk false) no_deep field_path = Immut.
 Proof. exact example_ok. Qed.
